@@ -218,15 +218,15 @@ func (o *FilterOptimizer) optimizeBetweenExpr(e *BinaryOpExpr) *ScanType {
 	return &ScanType{FULL, nil}
 }
 
-func (o *FilterOptimizer) optimizeGtGteExpr(e *BinaryOpExpr) *ScanType {
-	var (
-		field KVKeyword = ValueKW
-		key   []byte    = nil
-	)
-
+// keyAndLiteral finds the `key` field and the string literal of a comparison.
+// literalOnLeft tells which side the literal is on: 'b' > key constrains the key
+// from above, key > 'b' from below.
+func keyAndLiteral(e *BinaryOpExpr) (field KVKeyword, key []byte, literalOnLeft bool) {
+	field = ValueKW
 	switch left := e.Left.(type) {
 	case *StringExpr:
 		key = []byte(left.Data)
+		literalOnLeft = true
 	case *FieldExpr:
 		field = left.Field
 	}
@@ -234,18 +234,42 @@ func (o *FilterOptimizer) optimizeGtGteExpr(e *BinaryOpExpr) *ScanType {
 	switch right := e.Right.(type) {
 	case *StringExpr:
 		key = []byte(right.Data)
+		literalOnLeft = false
 	case *FieldExpr:
 		field = right.Field
 	}
+	return field, key, literalOnLeft
+}
+
+// rangeFrom is the scan for key > bound and key >= bound
+func rangeFrom(bound []byte) *ScanType {
+	if string(bound) == "" {
+		// key > '' or key >= '' means full scan
+		return &ScanType{FULL, nil}
+	}
+	return &ScanType{RANGE, [][]byte{bound, nil}}
+}
+
+// rangeUpTo is the scan for key < bound and key <= bound
+func rangeUpTo(bound []byte) *ScanType {
+	if string(bound) == "" {
+		// key < '' or key <= '' means no keys should be scan
+		return &ScanType{EMPTY, nil}
+	}
+	return &ScanType{RANGE, [][]byte{nil, bound}}
+}
+
+func (o *FilterOptimizer) optimizeGtGteExpr(e *BinaryOpExpr) *ScanType {
+	field, key, literalOnLeft := keyAndLiteral(e)
 
 	// Is Key start vale and value can calculate in query,
 	// return RANGE scan with start
 	if field == KeyKW && key != nil {
-		if string(key) == "" {
-			// key > '' or key >= '' means full scan
-			return &ScanType{FULL, nil}
+		if literalOnLeft {
+			// 'b' > key is key < 'b'
+			return rangeUpTo(key)
 		}
-		return &ScanType{RANGE, [][]byte{key, nil}}
+		return rangeFrom(key)
 	}
 
 	// If not just return FULL scan
@@ -253,33 +277,16 @@ func (o *FilterOptimizer) optimizeGtGteExpr(e *BinaryOpExpr) *ScanType {
 }
 
 func (o *FilterOptimizer) optimizeLtLteExpr(e *BinaryOpExpr) *ScanType {
-	var (
-		field KVKeyword = ValueKW
-		key   []byte    = nil
-	)
-
-	switch left := e.Left.(type) {
-	case *StringExpr:
-		key = []byte(left.Data)
-	case *FieldExpr:
-		field = left.Field
-	}
-
-	switch right := e.Right.(type) {
-	case *StringExpr:
-		key = []byte(right.Data)
-	case *FieldExpr:
-		field = right.Field
-	}
+	field, key, literalOnLeft := keyAndLiteral(e)
 
 	// Is Key start vale and value can calculate in query,
 	// return RANGE scan with end
 	if field == KeyKW && key != nil {
-		if string(key) == "" {
-			// key < '' or key <= '' means no keys should be scan
-			return &ScanType{EMPTY, nil}
+		if literalOnLeft {
+			// 'b' < key is key > 'b'
+			return rangeFrom(key)
 		}
-		return &ScanType{RANGE, [][]byte{nil, key}}
+		return rangeUpTo(key)
 	}
 
 	// If not just return FULL scan
